@@ -73,6 +73,7 @@ func init() {
   list ks { key "k"; leaf k { type string; } leaf n { type string; } }
   list ken { key "k"; leaf k { type en-t; } leaf n { type string; } }
   list kb { key "k"; leaf k { type boolean; } leaf n { type string; } }
+  list kd { key "k"; leaf k { type decimal64 { fraction-digits 9; } } leaf n { type string; } }
   list kk { key "a b"; leaf a { type uint16; } leaf b { type string; } leaf n { type string; } }
 }`
 }
